@@ -4,83 +4,152 @@ package sizes
 
 import (
 	"fmt"
+	"reflect"
 	"sort"
 	"strings"
+	"unsafe"
 
 	"github.com/github/git-sizer/git"
 )
 
+// This file is overlaid into package sizes at build time. It deliberately
+// names no private field or type of the package: the private state is reached
+// by reflection, so that renaming or reshaping private declarations does not
+// break the harness build.
+
 // VerifStateKey returns a canonical dump of the entire private state of g
-// (every map sorted), used by the explicit-state search to deduplicate states.
+// (every map sorted by key), used by the explicit-state search to deduplicate
+// states. Path bookkeeping (the path resolver and the *Path pointers of the
+// result) is left out: which path names an object may depend on the order of
+// arrival, the property is about the numbers.
 func (g *Graph) VerifStateKey() string {
 	var b strings.Builder
-	{
-		ks := make([]string, 0, len(g.blobSizes))
-		for k, v := range g.blobSizes {
-			ks = append(ks, fmt.Sprintf("b%s=%d", k, v.Size))
-		}
-		sort.Strings(ks)
-		b.WriteString(strings.Join(ks, ","))
-	}
-	{
-		ks := make([]string, 0, len(g.treeSizes))
-		for k, v := range g.treeSizes {
-			ks = append(ks, fmt.Sprintf("t%s=%v", k, v))
-		}
-		sort.Strings(ks)
-		b.WriteString("|" + strings.Join(ks, ","))
-	}
-	{
-		ks := make([]string, 0, len(g.treeRecords))
-		for k, v := range g.treeRecords {
-			ks = append(ks, fmt.Sprintf("T%s=%d/%d/%v/%d/%d", k, v.pending, len(v.listeners), v.size, v.objectSize, v.entryCount))
-		}
-		sort.Strings(ks)
-		b.WriteString("|" + strings.Join(ks, ","))
-	}
-	{
-		ks := make([]string, 0, len(g.commitSizes))
-		for k, v := range g.commitSizes {
-			ks = append(ks, fmt.Sprintf("c%s=%v", k, v))
-		}
-		sort.Strings(ks)
-		b.WriteString("|" + strings.Join(ks, ","))
-	}
-	{
-		ks := make([]string, 0, len(g.tagSizes))
-		for k, v := range g.tagSizes {
-			ks = append(ks, fmt.Sprintf("g%s=%v", k, v))
-		}
-		sort.Strings(ks)
-		b.WriteString("|" + strings.Join(ks, ","))
-	}
-	{
-		ks := make([]string, 0, len(g.tagRecords))
-		for k, v := range g.tagRecords {
-			ks = append(ks, fmt.Sprintf("G%s=%d/%d/%v/%d", k, v.pending, len(v.listeners), v.size, v.objectSize))
-		}
-		sort.Strings(ks)
-		b.WriteString("|" + strings.Join(ks, ","))
-	}
-	b.WriteString("|" + g.historySize.String())
-	{
-		ks := make([]string, 0, len(g.historySize.ReferenceGroups))
-		for k, v := range g.historySize.ReferenceGroups {
-			ks = append(ks, fmt.Sprintf("%s=%d", k, *v))
-		}
-		sort.Strings(ks)
-		b.WriteString("|" + strings.Join(ks, ","))
-	}
-	b.WriteString(fmt.Sprintf("|mcs=%d,tag=%d,hd=%d", g.historySize.MaxCommitSize, g.historySize.MaxTagDepth, g.historySize.MaxHistoryDepth))
+	verifDump(&b, reflect.ValueOf(g).Elem(), 0)
 	return b.String()
 }
 
-// VerifPending reports how many tree and tag records are still pending.
-func (g *Graph) VerifPending() (int, int) {
-	return len(g.treeRecords), len(g.tagRecords)
+var (
+	verifPathType     = reflect.TypeOf((*Path)(nil))
+	verifResolverType = reflect.TypeOf((*PathResolver)(nil)).Elem()
+)
+
+func verifDump(b *strings.Builder, v reflect.Value, depth int) {
+	if depth > 12 {
+		b.WriteString("...")
+		return
+	}
+	t := v.Type()
+	if t == verifPathType || t == verifResolverType || t.PkgPath() == "sync" || t.PkgPath() == "sync/atomic" {
+		return
+	}
+	switch v.Kind() {
+	case reflect.Bool:
+		fmt.Fprintf(b, "%v", v.Bool())
+	case reflect.Int, reflect.Int8, reflect.Int16, reflect.Int32, reflect.Int64:
+		fmt.Fprintf(b, "%d", v.Int())
+	case reflect.Uint, reflect.Uint8, reflect.Uint16, reflect.Uint32, reflect.Uint64, reflect.Uintptr:
+		fmt.Fprintf(b, "%d", v.Uint())
+	case reflect.Float32, reflect.Float64:
+		fmt.Fprintf(b, "%g", v.Float())
+	case reflect.String:
+		fmt.Fprintf(b, "%q", v.String())
+	case reflect.Func, reflect.Chan, reflect.UnsafePointer:
+		if v.IsNil() {
+			b.WriteString("nil")
+		} else {
+			b.WriteString(v.Kind().String())
+		}
+	case reflect.Ptr, reflect.Interface:
+		if v.IsNil() {
+			b.WriteString("nil")
+			return
+		}
+		verifDump(b, v.Elem(), depth+1)
+	case reflect.Array:
+		if t.Elem().Kind() == reflect.Uint8 {
+			for i := 0; i < v.Len(); i++ {
+				fmt.Fprintf(b, "%02x", v.Index(i).Uint())
+			}
+			return
+		}
+		fallthrough
+	case reflect.Slice:
+		fmt.Fprintf(b, "[%d:", v.Len())
+		if k := t.Elem().Kind(); k != reflect.Func {
+			for i := 0; i < v.Len(); i++ {
+				verifDump(b, v.Index(i), depth+1)
+				b.WriteByte(',')
+			}
+		}
+		b.WriteByte(']')
+	case reflect.Map:
+		es := make([]string, 0, v.Len())
+		it := v.MapRange()
+		for it.Next() {
+			var e strings.Builder
+			verifDump(&e, it.Key(), depth+1)
+			e.WriteByte('=')
+			verifDump(&e, it.Value(), depth+1)
+			es = append(es, e.String())
+		}
+		sort.Strings(es)
+		b.WriteString("{" + strings.Join(es, ",") + "}")
+	case reflect.Struct:
+		b.WriteByte('(')
+		for i := 0; i < v.NumField(); i++ {
+			ft := t.Field(i).Type
+			if ft == verifPathType || ft == verifResolverType {
+				continue
+			}
+			b.WriteString(t.Field(i).Name)
+			b.WriteByte(':')
+			verifDump(b, v.Field(i), depth+1)
+			b.WriteByte(';')
+		}
+		b.WriteByte(')')
+	default:
+		b.WriteString(v.Kind().String())
+	}
 }
 
-// VerifRecordCommit forwards to the path resolver, as ScanRepositoryUsingGraph does.
+// VerifPending reports how many tree and tag records are still pending: the
+// sizes of the private maps whose values are pointers to the pending-record
+// types (recognised by the words "tree"/"tag" and "record" in the type name);
+// -1 if no such map is found.
+func (g *Graph) VerifPending() (int, int) {
+	trees, tags := -1, -1
+	v := reflect.ValueOf(g).Elem()
+	for i := 0; i < v.NumField(); i++ {
+		f := v.Field(i)
+		if f.Kind() != reflect.Map || f.Type().Elem().Kind() != reflect.Ptr {
+			continue
+		}
+		name := strings.ToLower(f.Type().Elem().Elem().Name())
+		if !strings.Contains(name, "record") {
+			continue
+		}
+		switch {
+		case strings.Contains(name, "tree"):
+			trees = f.Len()
+		case strings.Contains(name, "tag"):
+			tags = f.Len()
+		}
+	}
+	return trees, tags
+}
+
+// VerifRecordCommit forwards to the graph's path resolver, as
+// ScanRepositoryUsingGraph does.
 func (g *Graph) VerifRecordCommit(oid, tree git.OID) {
-	g.pathResolver.RecordCommit(oid, tree)
+	v := reflect.ValueOf(g).Elem()
+	for i := 0; i < v.NumField(); i++ {
+		f := v.Field(i)
+		if f.Type() == verifResolverType && f.CanAddr() {
+			pr := reflect.NewAt(f.Type(), unsafe.Pointer(f.UnsafeAddr())).Elem().Interface().(PathResolver)
+			if pr != nil {
+				pr.RecordCommit(oid, tree)
+			}
+			return
+		}
+	}
 }
